@@ -65,6 +65,9 @@ pub const TOKEN_MODULE: u32 = u32::MAX;
 pub const TOKEN_PE: u32 = u32::MAX - 1;
 pub const TOKEN_TASK: u32 = u32::MAX - 2;
 
+/// number of tokens alive in the whole process (all threads)
+pub static LIVE_TOKENS: std::sync::atomic::AtomicI64 = std::sync::atomic::AtomicI64::new(0);
+
 #[derive(Debug)]
 pub struct Token {
     pub id: usize,
@@ -79,6 +82,7 @@ impl Token {
             c.ledger.created.len() - 1
         })
         .unwrap_or(usize::MAX);
+        LIVE_TOKENS.fetch_add(1, std::sync::atomic::Ordering::SeqCst);
         Token { id, uid }
     }
     pub fn new_opt() -> Option<Token> {
@@ -100,6 +104,7 @@ impl Clone for Token {
 
 impl Drop for Token {
     fn drop(&mut self) {
+        LIVE_TOKENS.fetch_sub(1, std::sync::atomic::Ordering::SeqCst);
         let id = self.id;
         with_ctx(|c| {
             if let Some(d) = c.ledger.drops.get_mut(id) {
